@@ -478,6 +478,8 @@ impl Engine for E5 {
     }
 
     fn generate(rng: &mut Rng, focus: &str, tier: Tier) -> NetCase {
+        // thorough tier: half of the cases have programs twice as long
+        let deep = tier == Tier::Thorough && rng.split(9).chance(1, 2);
         let mut cfg = rng.split(1);
         let mut prog = rng.split(2);
         let mut flt = rng.split(3);
@@ -548,7 +550,7 @@ impl Engine for E5 {
         let mut tasks = Vec::new();
         let big_ok = focus == "C13" && !buffered && tier == Tier::Thorough || (focus == "C13" && !buffered && cfg.chance(1, 30));
         for _ in 0..n_tasks {
-            let n = 1 + prog.usize_below(8);
+            let n = 1 + prog.usize_below(if deep { 16 } else { 8 });
             let mut ops = Vec::new();
             for _ in 0..n {
                 let w_flush = if buffered { 18 } else { 3 };
